@@ -418,4 +418,20 @@ def FileInfoLayout.compressionOf (L : FileInfoLayout) (raw : Nat) : R String :=
 def FileInfoLayout.schemaOf (L : FileInfoLayout) (raw : Nat) : Nat × Nat :=
   (L.schemaMajor.get raw, L.schemaMinor.get raw)
 
+/-! ## The pure methods by name (what the driver prints and the harness compares per method) -/
+
+/-- a `pub fn is_…(self) -> bool` of `DeviceCapability` / `U3VCapablitiy` /
+`DeviceConfiguration`: `is_bit_set!(self.0, bit)` with the bit of the generated table -/
+def bitTest (st pred : String) (raw : Nat) : Option Bool :=
+  (capBit st pred).map (isBitSet raw)
+
+/-- `GenICamFileInfo::file_type` on the raw 32-bit word -/
+def fileTypeOf (raw : Nat) : Option (R String) := fileInfoLayout.map (·.fileTypeOf raw)
+
+/-- `GenICamFileInfo::compression_type` on the raw 32-bit word -/
+def compressionOf (raw : Nat) : Option (R String) := fileInfoLayout.map (·.compressionOf raw)
+
+/-- `GenICamFileInfo::schema_version` on the raw 32-bit word: (major, minor), patch is 0 -/
+def schemaOf (raw : Nat) : Option (Nat × Nat) := fileInfoLayout.map (·.schemaOf raw)
+
 end CamVerif.RegMap
